@@ -38,6 +38,55 @@ pbf_harness!(c19_pbf_packed_4, 4, 13, |r| r.read_pbf_packed_uint32());
 pbf_harness!(c19_pbf_packed_11, 11, 13, |r| r.read_pbf_packed_uint32());
 pbf_harness!(c19_pbf_sub_reader_11, 11, 13, |r| r.get_pbf_sub_reader().map(|_| ()));
 
+// length-delimited fields whose announced length exceeds the whole buffer (up to u64::MAX: multi-byte varints) must be
+// rejected - no overflow of position + length, no allocation of the announced length. The accepting paths of the packed /
+// string / sub-reader decoders go through Box<dyn ValueReader> or from_utf8 and never finished (DESIGN 0.2 item 5); this
+// instance cuts them off by assuming the overlong length, decoded by the harness' own reference varint reader.
+fn ref_varint(b: &[u8]) -> Option<(u64, usize)> {
+	let mut v: u64 = 0;
+	let mut i = 0usize;
+	while i < b.len() && i < 10 {
+		let byte = b[i];
+		if i < 9 || byte <= 1 {
+			v |= ((byte & 0x7f) as u64) << (7 * i as u32);
+		}
+		if byte & 0x80 == 0 {
+			return Some((v, i + 1));
+		}
+		i += 1;
+	}
+	None
+}
+
+macro_rules! overlong_harness {
+	($name:ident, |$r:ident| $body:expr) => {
+		#[kani::proof]
+		#[kani::unwind(13)]
+		#[kani::stub(std::fmt::format, crate::verif_kani::stubs::fmt_format)]
+		#[kani::stub(std::backtrace::Backtrace::capture, crate::verif_kani::stubs::backtrace_capture)]
+		#[kani::stub(alloc::vec::from_elem, crate::verif_kani::stubs::vec_from_elem)]
+		fn $name() {
+			let data: [u8; 11] = any_bytes::<11>();
+			let d = ref_varint(&data);
+			kani::assume(d.is_some());
+			let (len, _used) = d.unwrap();
+			kani::assume(len > 11);
+			set_alloc_limit(11);
+			let mut $r = ValueReaderSlice::new_le(&data);
+			let res = $body;
+			let is_ok = res.is_ok();
+			std::mem::forget(res);
+			assert!(!is_ok, "a field announcing more bytes than the buffer holds is accepted");
+			kani::cover!(len > u64::MAX - 4, "length near u64::MAX");
+			kani::cover!(len == 12);
+		}
+	};
+}
+overlong_harness!(c19_pbf_packed_overlong, |r| r.read_pbf_packed_uint32());
+overlong_harness!(c19_pbf_blob_overlong, |r| r.read_pbf_blob());
+overlong_harness!(c19_pbf_string_overlong, |r| r.read_pbf_string());
+overlong_harness!(c19_pbf_sub_reader_overlong, |r| r.get_pbf_sub_reader().map(|_| ()));
+
 // get_sub_reader / read_blob / read_string with an arbitrary announced length at an arbitrary position
 #[kani::proof]
 #[kani::unwind(10)]
